@@ -16,6 +16,8 @@ def seeded():
         trig = (m.get("trigger") or "").replace("\n", " ").replace("|", "/")
         trig = trig if len(trig) < 230 else trig[:227] + "..."
         res = ", ".join(caught) if caught else "**missed**"
+        if m.get("superseded"):
+            res = "superseded (the fix of a defect it led to changed the code it edits; see DESIGN A.4c)"
         if missed and caught:
             res += "; not by " + ", ".join(missed)
         fp = m.get("first_pass")
